@@ -13,6 +13,7 @@ import (
 )
 
 type WriteSet struct {
+	Fresh map[string]bool // variables written only at references allocated during the call
 	All   bool
 	Names map[string]bool
 	Sorts map[string]Sort
@@ -20,7 +21,7 @@ type WriteSet struct {
 }
 
 func newWS() *WriteSet {
-	return &WriteSet{Names: map[string]bool{}, Sorts: map[string]Sort{}, Types: map[string]types.Type{}}
+	return &WriteSet{Names: map[string]bool{}, Sorts: map[string]Sort{}, Types: map[string]types.Type{}, Fresh: map[string]bool{}}
 }
 
 func (w *WriteSet) add(name string) { w.Names[name] = true }
@@ -41,6 +42,11 @@ func (w *WriteSet) union(o *WriteSet) {
 		w.All = true
 	}
 	for k := range o.Names {
+		if w.Names[k] && w.Fresh[k] && !o.Fresh[k] {
+			delete(w.Fresh, k)
+		} else if !w.Names[k] && o.Fresh[k] {
+			w.Fresh[k] = true
+		}
 		w.Names[k] = true
 	}
 	for k, v := range o.Types {
@@ -376,6 +382,18 @@ func (fc *FnCtx) callWritesDepth(c ssa.CallInstruction, depth int) *WriteSet {
 		if ct := fc.eng.ContractFor(callee); ct != nil {
 			if ct.HasMod {
 				fc.modifiesToWS(ct, ws)
+				if len(callee.Blocks) > 0 && !ct.Flags["trusted"] {
+					body := fc.funcWrites(callee, depth)
+					for _, n := range body.sorted() {
+						if !ws.Names[n] {
+							ws.add(n)
+							ws.Fresh[n] = true
+							if srt, ok := body.Sorts[n]; ok {
+								ws.Sorts[n] = srt
+							}
+						}
+					}
+				}
 				return ws
 			}
 			if ct.Flags["pure"] {
@@ -397,6 +415,13 @@ func (fc *FnCtx) callWritesDepth(c ssa.CallInstruction, depth int) *WriteSet {
 			if w := h(fc, c); w != nil {
 				ws.union(w)
 				return ws
+			}
+		}
+		if _, ok := libModels[k]; ok {
+			if _, has := libWriteSets[k]; !has {
+				if _, pure := pureLib[k]; !pure {
+					return ws
+				}
 			}
 		}
 		if eff, ok := libEffects(k); ok {
@@ -423,6 +448,30 @@ func (fc *FnCtx) callWritesDepth(c ssa.CallInstruction, depth int) *WriteSet {
 
 func (fc *FnCtx) modifiesToWS(ct *FuncContract, ws *WriteSet) {
 	for _, m := range ct.Modifies {
+		fresh := false
+		if strings.HasPrefix(m, "fresh(") && strings.HasSuffix(m, ")") {
+			fresh = true
+			m = m[6 : len(m)-1]
+		}
+		before := map[string]bool{}
+		for k := range ws.Names {
+			before[k] = true
+		}
+		defer func() {}()
+		_ = before
+		if fresh {
+			tmp := newWS()
+			sub := *ct
+			sub.Modifies = []string{m}
+			fc.modifiesToWS(&sub, tmp)
+			for k := range tmp.Names {
+				if !ws.Names[k] {
+					ws.Fresh[k] = true
+				}
+				ws.add(k)
+			}
+			continue
+		}
 		switch {
 		case m == "all" || m == "*":
 			ws.All = true
